@@ -254,6 +254,27 @@ func checkC05(c *Ctx) error {
 						jobs = append(jobs, job{tw, fmt.Sprintf("n%d/e%d/s%d/tags-named-like-services", n, e, s)})
 					}
 				}
+				// the same structure with `!tagged<other white space>tag` requests (round 13)
+				if (e+3*s)%11 == 5 && strings.Contains(conf.YAML(), "!tagged ") {
+					rs := conf.Clone()
+					respellTagged(&rs, e+s)
+					jobs = append(jobs, job{&rs, fmt.Sprintf("n%d/e%d/s%d/tagged-respelled", n, e, s)})
+				}
+				// the same structure with every service that takes no constructor argument declared as a `value:` service:
+				// what its fields and calls are given still counts (round 13, S245)
+				if (e+5*s)%9 == 4 {
+					vs := conf.Clone()
+					changed := false
+					for i := range vs.Services {
+						if x := &vs.Services[i]; len(x.Args) == 0 && len(x.Fields)+len(x.Calls) > 0 {
+							x.Constructor, x.Value = nil, cfg.P("&pa.Obj{}")
+							changed = true
+						}
+					}
+					if changed {
+						jobs = append(jobs, job{&vs, fmt.Sprintf("n%d/e%d/s%d/value-services", n, e, s)})
+					}
+				}
 				// the same structure with an undefined dependency next to the real ones (sorting before / after every
 				// service name); run with --ignore-missing-services, the scope verdict must not change
 				if (e+s)%5 == 0 && n >= 2 {
